@@ -1,9 +1,12 @@
 package main
 
 import (
+	"encoding/json"
 	"fmt"
 	"go/ast"
 	"go/token"
+	"os"
+	"path/filepath"
 	"sort"
 	"strconv"
 	"strings"
@@ -111,6 +114,235 @@ func init() {
 			for _, e := range ents {
 				parts = append(parts, fmt.Sprintf("(0x%02X, %s)", e.b, leanBytes(e.rep)))
 				js[string([]byte{e.b})] = e.rep
+			}
+			return "[" + strings.Join(parts, ", ") + "]", js, nil
+		},
+	})
+}
+
+// ---- job-script level facts (C18) ----
+
+// c18JobScriptParams: the `params := [...][2]string{ {prefix+"NAME"+suffix, value}, … }`
+// table of RemoteJobManager.jobScript: name and kind of value expression
+// (quoted = shellSafeQuote(…), int = strconv.Itoa(…), cmd = the variable that
+// holds formatArgs(…), raw = anything else).
+func c18JobScriptParams(repo string) ([][2]string, error) {
+	_, f, err := parseFile(repo, "martian/core/jobmanager_remote.go")
+	if err != nil {
+		return nil, err
+	}
+	fd := findMethod(f, "RemoteJobManager", "jobScript")
+	if fd == nil {
+		return nil, fmt.Errorf("RemoteJobManager.jobScript not found")
+	}
+	// variables assigned from formatArgs(...)
+	cmdVars := map[string]bool{}
+	consts := map[string]string{}
+	var table *ast.CompositeLit
+	ast.Inspect(fd.Body, func(n ast.Node) bool {
+		switch x := n.(type) {
+		case *ast.AssignStmt:
+			if len(x.Lhs) == 1 && len(x.Rhs) == 1 {
+				id, ok := x.Lhs[0].(*ast.Ident)
+				if !ok {
+					return true
+				}
+				if call, ok := x.Rhs[0].(*ast.CallExpr); ok {
+					if fn, ok := call.Fun.(*ast.Ident); ok && fn.Name == "formatArgs" {
+						cmdVars[id.Name] = true
+					}
+				}
+				if cl, ok := x.Rhs[0].(*ast.CompositeLit); ok && id.Name == "params" {
+					table = cl
+				}
+			}
+		case *ast.ValueSpec:
+			for i, nm := range x.Names {
+				if i < len(x.Values) {
+					if bl, ok := x.Values[i].(*ast.BasicLit); ok && bl.Kind == token.STRING {
+						if s, err := strconv.Unquote(bl.Value); err == nil {
+							consts[nm.Name] = s
+						}
+					}
+				}
+			}
+		}
+		return true
+	})
+	if table == nil {
+		return nil, fmt.Errorf("params table not found in jobScript")
+	}
+	var strOf func(e ast.Expr) (string, bool)
+	strOf = func(e ast.Expr) (string, bool) {
+		switch x := e.(type) {
+		case *ast.BasicLit:
+			if x.Kind == token.STRING {
+				s, err := strconv.Unquote(x.Value)
+				return s, err == nil
+			}
+		case *ast.Ident:
+			s, ok := consts[x.Name]
+			return s, ok
+		case *ast.BinaryExpr:
+			if x.Op == token.ADD {
+				a, ok1 := strOf(x.X)
+				b, ok2 := strOf(x.Y)
+				return a + b, ok1 && ok2
+			}
+		case *ast.ParenExpr:
+			return strOf(x.X)
+		}
+		return "", false
+	}
+	var out [][2]string
+	for _, el := range table.Elts {
+		cl, ok := el.(*ast.CompositeLit)
+		if !ok || len(cl.Elts) != 2 {
+			return nil, fmt.Errorf("params entry is not a {key, value} pair")
+		}
+		key, ok := strOf(cl.Elts[0])
+		if !ok || !strings.HasPrefix(key, "__MRO_") || !strings.HasSuffix(key, "__") || len(key) < 9 {
+			return nil, fmt.Errorf("params key is not a constant __MRO_…__ string")
+		}
+		kind := "raw"
+		switch v := cl.Elts[1].(type) {
+		case *ast.CallExpr:
+			switch fn := v.Fun.(type) {
+			case *ast.Ident:
+				if fn.Name == "shellSafeQuote" {
+					kind = "quoted"
+				}
+			case *ast.SelectorExpr:
+				if x, ok := fn.X.(*ast.Ident); ok && x.Name == "strconv" && fn.Sel.Name == "Itoa" {
+					kind = "int"
+				}
+			}
+		case *ast.Ident:
+			if cmdVars[v.Name] {
+				kind = "cmd"
+			}
+		}
+		out = append(out, [2]string{key[6 : len(key)-2], kind})
+	}
+	return out, nil
+}
+
+func init() {
+	addFact(fact{
+		name:   "jobScriptParams",
+		leanTy: "List (String × String)",
+		deflt:  "[]",
+		extract: func(repo string) (string, interface{}, error) {
+			ps, err := c18JobScriptParams(repo)
+			if err != nil {
+				return "", nil, err
+			}
+			var parts []string
+			for _, p := range ps {
+				parts = append(parts, "("+leanStr(p[0])+", "+leanStr(p[1])+")")
+			}
+			return "[" + strings.Join(parts, ", ") + "]", ps, nil
+		},
+	})
+	// every shipped template that has a command line, cut into lines and each
+	// line into segments: ("", literal bytes) | (NAME, []) for __MRO_NAME__
+	// (the first parameter, in table order, whose key is a prefix of the text
+	// at a position — the rule of strings.NewReplacer).
+	addFact(fact{
+		name:   "jobTemplates",
+		leanTy: "List (String × List (List (String × List UInt8)))",
+		deflt:  "[]",
+		extract: func(repo string) (string, interface{}, error) {
+			ps, err := c18JobScriptParams(repo)
+			if err != nil {
+				return "", nil, err
+			}
+			files, _ := filepath.Glob(filepath.Join(repo, "jobmanagers", "*.template*"))
+			sort.Strings(files)
+			var ts []string
+			js := map[string]interface{}{}
+			for _, fn := range files {
+				b, err := os.ReadFile(fn)
+				if err != nil || !strings.Contains(string(b), "__MRO_CMD__") {
+					continue
+				}
+				var lines []string
+				var jl [][]string
+				for _, line := range strings.Split(string(b), "\n") {
+					var segs []string
+					var jsegs []string
+					lit := ""
+					flushLit := func() {
+						if lit != "" {
+							segs = append(segs, "(\"\", "+leanBytes(lit)+")")
+							jsegs = append(jsegs, lit)
+							lit = ""
+						}
+					}
+					for i := 0; i < len(line); {
+						matched := false
+						for _, p := range ps {
+							k := "__MRO_" + p[0] + "__"
+							if strings.HasPrefix(line[i:], k) {
+								flushLit()
+								segs = append(segs, "("+leanStr(p[0])+", [])")
+								jsegs = append(jsegs, "<"+p[0]+">")
+								i += len(k)
+								matched = true
+								break
+							}
+						}
+						if !matched {
+							lit += line[i : i+1]
+							i++
+						}
+					}
+					flushLit()
+					lines = append(lines, "["+strings.Join(segs, ", ")+"]")
+					if len(jsegs) > 1 || (len(jsegs) == 1 && strings.HasPrefix(jsegs[0], "<")) || (len(jsegs) == 1 && !strings.HasPrefix(jsegs[0], "#")) {
+						jl = append(jl, jsegs)
+					}
+				}
+				ts = append(ts, "("+leanStr(filepath.Base(fn))+",\n    ["+strings.Join(lines, ",\n     ")+"])")
+				js[filepath.Base(fn)] = jl
+			}
+			if len(ts) == 0 {
+				return "", nil, fmt.Errorf("no job template with __MRO_CMD__ under jobmanagers/")
+			}
+			return "[" + strings.Join(ts, ",\n   ") + "]", js, nil
+		},
+	})
+	// jobmodes.<mode>.resopt of jobmanagers/config.json (the text substituted,
+	// with the mapped resource, for __MRO_RESOURCES__)
+	addFact(fact{
+		name:   "jobResOpts",
+		leanTy: "List (String × List UInt8)",
+		deflt:  "[]",
+		extract: func(repo string) (string, interface{}, error) {
+			b, err := os.ReadFile(filepath.Join(repo, "jobmanagers", "config.json"))
+			if err != nil {
+				return "", nil, err
+			}
+			var cfg struct {
+				JobModes map[string]struct {
+					ResOpt string `json:"resopt"`
+				} `json:"jobmodes"`
+			}
+			if err := json.Unmarshal(b, &cfg); err != nil {
+				return "", nil, err
+			}
+			var modes []string
+			for m, v := range cfg.JobModes {
+				if v.ResOpt != "" {
+					modes = append(modes, m)
+				}
+			}
+			sort.Strings(modes)
+			var parts []string
+			js := map[string]string{}
+			for _, m := range modes {
+				parts = append(parts, "("+leanStr(m)+", "+leanBytes(cfg.JobModes[m].ResOpt)+")")
+				js[m] = cfg.JobModes[m].ResOpt
 			}
 			return "[" + strings.Join(parts, ", ") + "]", js, nil
 		},
